@@ -360,8 +360,65 @@ JOB_TEXTS = [
 ]
 
 
+RELOAD_FIRST = ['assign z 0 printf "{} {}" 5 {1 / z}', 'print 1 print {1 / 0} print 2', 'print "a" on all print "b"', 'assign q 3 define k 4 hue 200 units raw print q',
+                'printf "{} {}" 1 2 print 3', 'repeat 2 begin print 8 end time at 8:00']
+RELOAD_SECOND = ['println 7', 'print hue print 1', 'printf "{}|" 5', 'assign q 1 print q set all']
+
+
+def reload_worker(args):
+    """One ScriptJob object: a first text is loaded and executed (some die on a run-time error with output pending),
+    then a second text is loaded into the same job and executed: it behaves as on a fresh job."""
+    import io
+    import sys as _sys
+    from bardolph.lib import std_out_output
+    res = report.WorkResult('a job object loaded with another text')
+    world.start_function_trace()
+    res.sites.add('reload')
+
+    def run_pair(first, second, production):
+        out = io.StringIO()
+        bind = (lambda net: std_out_output.configure()) if production else 'rec'
+        saved = _sys.stdout
+        _sys.stdout = out
+        try:
+            net = world.configure(output=bind)
+            world.uninstall_real_mode()
+            fresh = ScriptJob.from_string(second)
+            exec_job(fresh, net)
+            want = (plain(scripth.norm_vm_trace(list(net.trace))), out.getvalue(), net.aborted)
+            out.seek(0); out.truncate()
+            net2 = world.configure(output=bind)
+            world.uninstall_real_mode()
+            job = ScriptJob.from_string(first)
+            exec_job(job, net2)
+            reset_devices(net2)
+            del net2.trace[:]
+            net2.aborted = None
+            out.seek(0); out.truncate()
+            job.load_string(second)
+            exec_job(job, net2)
+            got = (plain(scripth.norm_vm_trace(list(net2.trace))), out.getvalue(), net2.aborted)
+        finally:
+            _sys.stdout = saved
+            world.install_real_mode()
+        return want, got
+    for first in RELOAD_FIRST:
+        for second in RELOAD_SECOND:
+            for production in (False, True):
+                res.nontrivial += 1
+                want, got = run_pair(first, second, production)
+                res.reached.add('reload')
+                if want != got:
+                    res.violation('reload|differs', 'the text %r loaded into a job that had run %r: commands/output %r, on a fresh job %r (%s output binding)'
+                                  % (second, first, (got[1], got[0][:4], got[2]), (want[1], want[0][:4], want[2]), 'production' if production else 'recording'),
+                                  inputs={'first': first, 'second': second}, replayed=True)
+    res.sample({'first': RELOAD_FIRST, 'second': RELOAD_SECOND})
+    res.functions = world.functions_seen()
+    return res
+
+
 def dispatch(args):
-    return {'compile': compile_worker, 'rerun': rerun_worker, 'twojobs': twojobs_worker}[args['kind']](args)
+    return {'compile': compile_worker, 'rerun': rerun_worker, 'twojobs': twojobs_worker, 'reload': reload_worker}[args['kind']](args)
 
 
 def run(tier, seed):
@@ -407,6 +464,7 @@ def run(tier, seed):
         c2 = scripth.Case([], tag='job%d' % b)
         items.append({'kind': 'twojobs', 'first': c1, 'case': c2, 't1': texts[a], 't2': texts[b], 'stops': 12 if q else 45,
                       'stride': 3 if q else 1, 'seed': seed})
+    items.append({'kind': 'reload'})
     results, skipped = report.run_pool(dispatch, items, budget_s=common.tier_budget(tier, 75, 900))
     return report.finish(
         PROP, tier, seed, 'exploration', results, skipped,
